@@ -224,6 +224,14 @@ fn rename_unit_refs(merge_module: &mut Module, rename_table: &HashMap<String, St
             }
         }
     }
+
+    for unit in &mut merge_module.unit {
+        if let Some(ref_unit) = &mut unit.ref_unit {
+            if let Some(newname) = rename_table.get(&ref_unit.unit) {
+                ref_unit.unit = newname.to_owned();
+            }
+        }
+    }
 }
 
 // ------------------------ COMPU_TAB / COMPU_VTAB / COMPU_VTAB_RANGE ------------------------
